@@ -448,6 +448,9 @@ def einsum(eq, a, b=None, *, backend=None):
     if b is None:
         return _einsum_single(eq, a, backend=backend)
 
+    # handle spaces and an implicit output, as the single term version does
+    eq = "->".join(_sanitize_equation(eq))
+
     (
         eq_a,
         eq_b,
